@@ -97,7 +97,7 @@ theorem ShapeU.get' : ∀ (fs : BL) (ufs : UFields) (k i : Nat) (tid : Int) (nm 
 theorem interpScalar_int_known {ext : Ext} {dt : DataType} {t : IntTy} {v : Int} {lv : LVal} (md : Metadata)
     (h : interpScalar ext dt (.int t v) = .ok lv) : isUnknownVariant dt md = false := by
   cases dt <;> simp only [isUnknownVariant]
-  simp [interpScalar, fail] at h
+  simp [interpScalar_eq_old, normErr_ok_iff, interpScalarOld, fail] at h
 
 theorem pushByteElems_complete (ext : Ext) (large : Bool) : ∀ (bs : Bytes) (el : B) (offs : List Int) (l : Int)
     (cdt : DataType) (cn : Bool) (cmd : Metadata) (ls : List LVal), Good el cdt cn cmd →
